@@ -15,7 +15,7 @@ model of libc's `gmtime_r` / `timegm` / `strftime`).  Instants are whole seconds
 * `c19_accessors`, `c19_parsed_fields`   accessors = the independent calendar's fields
 * `c19_offsets_iso`, `c19_offsets_rfc822`   numeric offsets and UTC designators in any case
 * `c19_epoch_views`     `as_millis`, `as_nanos`, `init_epoch_millis` (through the generated `aws_timestamp_convert`);
-                        `c19_nanos_saturation_witness`
+                        exact or saturated, never wrapped; `c19_nanos_plain_add_wraps` records the repaired defect
 * `c19_gen_formatters`, `c19_gen_month_table`, `c19_gen_constants`   the values regenerated from date_time.c
                         (format strings, formatter dispatch, month compare chain, reader constants) are the expected ones
 -/
@@ -101,24 +101,29 @@ theorem c19_offsets_rfc822 (t : Int) (h0 : 0 ≤ t) (h1 : t ≤ maxInstant) (pf 
         .ok (mkDateTime (t - Spec.offsetSecs neg hh mm) 0 true (Spec.offsetText neg hh mm false))) :=
   Main.c19_offsets_rfc822 t h0 h1 pf hpf
 
-/-- **Epoch views.**  For a non-negative timestamp and `ms < 65536` (the field is a `uint16_t`):
-`as_millis = 1000·secs + ms` when that fits 64 bits, and `as_nanos = 10^6 · as_millis` when
-`10^9·secs + 10^6·ms` fits; `init_epoch_millis m` splits `m` so that `as_millis` returns `m`. -/
+/-- **Epoch views.**  For a non-negative timestamp below 2^64 and `ms < 65536` (the field is a `uint16_t`):
+`as_millis = 1000·secs + ms` when that fits 64 bits; `as_nanos` is `10^9·secs + 10^6·ms` *exactly or
+saturated at 2^64 − 1, never wrapped*, hence `= 10^6 · as_millis` whenever it fits (instants up to
+2554-07-21T23:34:33.709Z) and the maximum beyond; `init_epoch_millis m` splits `m` so that `as_millis`
+returns `m`.  (`aws_timestamp_convert` is the generated translation of clock.inl.) -/
 theorem c19_epoch_views :
-    (∀ dt : DateTime, 0 ≤ dt.timestamp → dt.millis < 65536 →
+    (∀ dt : DateTime, 0 ≤ dt.timestamp → dt.timestamp.toNat < u64 → dt.millis < 65536 →
       (1000 * dt.timestamp.toNat + dt.millis < u64 → asMillis dt = 1000 * dt.timestamp.toNat + dt.millis) ∧
+      asNanos dt = min (1000000000 * dt.timestamp.toNat + 1000000 * dt.millis) (u64 - 1) ∧
       (1000000000 * dt.timestamp.toNat + 1000000 * dt.millis < u64 → asNanos dt = 1000000 * asMillis dt)) ∧
     (∀ m : Nat, m < u64 →
       (initEpochMillis m).timestamp = (m / 1000 : Nat) ∧ (initEpochMillis m).millis = m % 1000 ∧
       asMillis (initEpochMillis m) = m) :=
   Main.c19_epoch_views
 
-/-- outside that range `aws_timestamp_convert` saturates and the following addition wraps:
-20000000000 s + 1 ms (year 2603) has `as_nanos = 999999` -/
-theorem c19_nanos_saturation_witness :
-    asNanos { timestamp := 20000000000, millis := 1 } = 999999 ∧
-    asMillis { timestamp := 20000000000, millis := 1 } = 20000000000001 :=
-  Main.c19_nanos_saturation_witness
+/-- **Record of the defect repaired in /repo** (`aws_date_time_as_nanos` added its two saturating conversions
+with a plain `+`): for 20000000000 s + 1 ms (year 2603) that body gives 999999 ns — the sum of the saturated
+first term and 10^6 wraps — while `as_millis` is 20000000000001; the current body saturates there. -/
+theorem c19_nanos_plain_add_wraps :
+    asNanosPlainAdd { timestamp := 20000000000, millis := 1 } = 999999 ∧
+    asMillis { timestamp := 20000000000, millis := 1 } = 20000000000001 ∧
+    asNanos { timestamp := 20000000000, millis := 1 } = 18446744073709551615 :=
+  Main.c19_nanos_plain_add_wraps
 
 /-! ### the generated layer (`AwsVerif.Gen.Date`, rewritten from date_time.c on every run) -/
 
